@@ -365,6 +365,12 @@ def systematic_settings(r, desc, full):
         out.append(("single-bad-selector", [other, {"selector": badsel, "auto_populated_fields": ["request_id"]}]))
         if full:
             out.append(("single-bad-selector", [{"selector": badsel, "auto_populated_fields": []}]))
+    # a selector that spells a method name with surrounding whitespace (YAML block scalar `selector: >` keeps the final line break)
+    # names NO method: it must be rejected, alone and next to the entry of the method it resembles
+    for ws in ([sel + "\n", " " + sel, sel + " ", sel + "\t", "\n" + sel + "\n"] if full else [sel + "\n", sel + " "]):
+        out.append(("selector-with-whitespace", [other, {"selector": ws, "auto_populated_fields": ["request_id"]}]))
+    out.append(("selector-with-whitespace", [{"selector": sel, "auto_populated_fields": spec_valid[:1]}, {"selector": sel + "\n", "auto_populated_fields": spec_valid[:2]}]))
+    out.append(("selector-with-whitespace", [{"selector": other["selector"] + "\n", "auto_populated_fields": ["opt_id"]}]))
     out.append(("single-foreign-request", [{"selector": f"{PKG}.Library.Ping", "auto_populated_fields": ["request_id"]}, other]))
     good = {"selector": sel, "auto_populated_fields": spec_valid[:2]}
     for lst in ([good, dict(good)], [good, other, dict(good)], [good, {"selector": sel, "auto_populated_fields": []}],
